@@ -235,7 +235,7 @@ pub fn random_history(cfg: &RandCfg, rng: &mut StdRng, r: &mut Recorder, clients
             }
             used_ranks.insert(ts * 100 + rk);
             Some(exec_action(&mut w, &json!({"op":"Commit","c":c,"g":g,"kind":kind,"arg":arg,"ts":ts,"rank":rk})))
-        } else if cfg.adversary && roll >= 84 && roll < 90 {
+        } else if cfg.adversary && roll >= 82 && roll < 92 {
             // a malicious member: forged rumors (arbitrary pubkey, pre-set ids) and raw MLS commits / proposals
             let post = w.project(&c, g);
             let cur_members: Vec<String> = post["members"].as_array().map(|a| a.iter().map(|x| x.as_str().unwrap().to_string()).collect()).unwrap_or_default();
@@ -335,9 +335,31 @@ pub fn random_history(cfg: &RandCfg, rng: &mut StdRng, r: &mut Recorder, clients
             }
         };
         if let Some(v) = rec {
+            // hostile events of a member are pushed to a few other members at once, so that they are met in the epoch
+            // they were made for (the random deliveries alone mostly hand them over too late)
+            let push: Option<(String, String)> = if cfg.adversary && matches!(v["op"].as_str(), Some("Raw") | Some("Forge")) && v["res"] == json!("Ok") {
+                Some((v["e"].as_str().unwrap_or("").to_string(), v["g"].as_str().unwrap_or("g1").to_string()))
+            } else { None };
             r.emit(v);
             note_chain(&mut w, &mut held, &c, "g1");
             if two { note_chain(&mut w, &mut held, &c, "g2"); }
+            if let Some((e, eg)) = push {
+                if !e.is_empty() && rng.gen_bool(0.7) {
+                    let parent = w.events[&e].parent.clone();
+                    for x in clients {
+                        if *x == c.as_str() || tainted.contains(*x) || !rng.gen_bool(0.6) { continue; }
+                        if cfg.regime == "causal" && !held[&(x.to_string(), eg.clone())].contains(&parent) { continue; }
+                        delivered.insert(e.clone());
+                        let mut rk = 1u64;
+                        while used_ranks.contains(&(clock * 100 + rk)) { rk = rk % 15 + 1; if rk == 1 { break; } }
+                        let dv = exec_action(&mut w, &json!({"op":"Deliver","c":x,"e":e,"ts":clock,"rank":rk}));
+                        if dv["out"] != json!("") { used_ranks.insert(clock * 100 + rk); }
+                        r.emit(dv);
+                        note_chain(&mut w, &mut held, x, "g1");
+                        if two { note_chain(&mut w, &mut held, x, "g2"); }
+                    }
+                }
+            }
         }
     }
 
